@@ -66,6 +66,9 @@ from .token import Token
 if TYPE_CHECKING:
     from . import JSONPathEnvironment
 
+# A descendant segment followed by a shorthand name, `..thing`.
+TOKEN_DDOT_PROPERTY = "DDOT_PROPERTY"
+
 
 class Lexer:
     """Tokenize a JSONPath string.
@@ -108,6 +111,9 @@ class Lexer:
         # .thing
         self.dot_property_pattern = rf"\.(?P<G_PROP>{self.key_pattern})"
 
+        # ..thing
+        self.ddot_property_pattern = rf"\.\.(?P<G_DPROP>{self.key_pattern})"
+
         self.slice_list_pattern = (
             r"(?P<G_LSLICE_START>\-?\d*)\s*"
             r":\s*(?P<G_LSLICE_STOP>\-?\d*)\s*"
@@ -141,6 +147,7 @@ class Lexer:
             (TOKEN_RE_PATTERN, self.re_pattern),
             (TOKEN_LIST_SLICE, self.slice_list_pattern),
             (TOKEN_FUNCTION, self.function_pattern),
+            (TOKEN_DDOT_PROPERTY, self.ddot_property_pattern),
             (TOKEN_DOT_PROPERTY, self.dot_property_pattern),
             (TOKEN_FLOAT, r"-?\d+\.\d*(?:[eE][+-]?\d+)?"),
             (TOKEN_INT, r"-?\d+(?P<G_EXP>[eE][+\-]?\d+)?\b"),
@@ -202,6 +209,17 @@ class Lexer:
                     kind=TOKEN_PROPERTY,
                     value=match.group("G_PROP"),
                     index=match.start("G_PROP"),
+                )
+            elif kind == TOKEN_DDOT_PROPERTY:
+                yield _token(
+                    kind=TOKEN_DDOT,
+                    value="..",
+                    index=match.start(),
+                )
+                yield _token(
+                    kind=TOKEN_BARE_PROPERTY,
+                    value=match.group("G_DPROP"),
+                    index=match.start("G_DPROP"),
                 )
             elif kind == TOKEN_BARE_PROPERTY:
                 yield _token(
